@@ -49,13 +49,17 @@ class Env:
     # ---- real evaluation ----------------------------------------------------------
     def evaluate(self, q, input_idx=None, extra=None, cache=None, via="plain"):
         """evaluate under the given global cache; returns (outcome dict, state or None, call log).
-        via: "plain" - Context().evaluate with the cache installed globally; "debug" - the same from a Context(debug=True)
+        via: "plain" - Context().evaluate with the cache installed globally; "empty_extra_dict/list" - the same with an
+        empty container of extra parameters; "debug" - the same from a Context(debug=True)
         (debug messages travel through the same progress-metadata writes); "cache_arg" - the cache is handed to this one
         call (evaluate(q, cache=c)) while the global cache is NoCache."""
         from liquer.cache import set_cache, NoCache
         from liquer.context import Context
 
         kw = {}
+        if via in ("empty_extra_dict", "empty_extra_list") and not extra:
+            # what the web handlers pass on every plain request: an empty container of extra parameters
+            extra = {} if via == "empty_extra_dict" else []
         if via == "cache_arg" and cache is not None:
             set_cache(NoCache())
             kw["cache"] = cache
